@@ -54,7 +54,7 @@ def input_entries(prog):
 
 def r1(ctx, prog):
     ctx.rule('C13.R1', 'A8: no exception escapes the input path of the terminal (Terminal::Impl::onRecv*, Telnetd/TcpRpc receive, connect and '
-                       'disconnect handlers): every may-throw call is caught, proven in range or a confirmed table exception', floor=10)
+                       'disconnect handlers): every may-throw call is caught, proven in range or a confirmed table exception', floor=1)
     eng = exc.ExcEngine(prog, exceptions=EXC_TABLE,
                         follow=lambda g: g.file.startswith(MODULES + '/terminal/') or g.file.startswith(MODULES + '/util/'))
     prove = exc.chain_provers(exc.prove_string_pos, rd.prove_string_pos_rd, exc.prove_index_guard, exc.prove_find_guard)
@@ -71,6 +71,9 @@ def r1(ctx, prog):
         ctx.ob('C13.R1', key, False, '%s may throw %s, not caught on the chain %s' % (fd['label'], '/'.join(fd['types']), ' -> '.join(fd['chain'][-4:])), where=f.loc(st['i']))
     ctx.stats['may_throw_sites'] = eng.sites
     ctx.stats['functions_on_input_path'] = eng.functions
+    ctx.ob('C13.R1', T + '|scanned', True, '%d functions reachable from the input entries, %d may-throw sites' % (eng.functions, eng.sites))
+    if eng.functions < 50:
+        raise AnalysisBroken('input-path call graph too small (%d functions)' % eng.functions)
 
 
 def nonempty_proof(f, st):
